@@ -52,6 +52,8 @@ Rel(e, s, t) ==
            RemoveProperty(s[e.a], e.name, t[e.a]) /\ Only(s, t, {e.a})
       [] e.op = "add_constant" ->
            AddConstant(s[e.a], e.name, e.data, t[e.a]) /\ Only(s, t, {e.a})
+      [] e.op = "ensure_properties" ->
+           EnsureProperties(s[e.a], s[e.b], SetOf(e.props), t[e.a]) /\ Only(s, t, {e.a})
       [] e.op = "set_constant" ->
            SetConstant(s[e.a], e.name, e.data, t[e.a]) /\ Only(s, t, {e.a})
       [] e.op = "resize_fill" ->
